@@ -225,7 +225,8 @@ def gen_program(rng, pkg, n=None, p_explicit=0.15, p_hidden=0.12, min_memento=2,
                 pool = [vars_[rd["v"]]["name"] for rd in nd["reads"] if rd["form"] == "bare"]
                 # (callees of the same module only: a name imported for a call stays bound in a running process after
                 # an edit removed the call, which a fresh import of the edited text would not have)
-                pool += [nodes[c["t"]]["name"] for c in nd["calls"] if c["form"] in ("bare", "chain") and nodes[c["t"]]["mod"] == nd["mod"]]
+                pool += [nodes[c["t"]]["name"] for c in nd["calls"] if c["form"] in ("bare", "chain") and nodes[c["t"]]["mod"] == nd["mod"]
+                         and nodes[c["t"]]["kind"] != "memento"]
                 pool = [p_ for p_ in pool if p_ != inner_t and p_ not in BUILTIN_NAMES]
                 if pool:
                     nd["nested"]["param"] = rng.choice(pool)
@@ -299,6 +300,8 @@ def call_form(rng, nodes, i, t, p_hidden):
         # that memento, by design, does not follow beyond the package
         return "bare" if src["mod"] == "e" else rng.choice(["bare", "xattr"])
     forms = ["bare", "bare", "alias", "chain"]
+    if dst["kind"] == "memento" and rng.random() < 0.25:
+        return rng.choice(["mod_fl", "mod_pt", "mod_cb"])
     if src["mod"] == "b" and dst["mod"] == "a":
         if src["kind"] == "wrapped":
             return "attr"  # wrapped helpers of module b reach module a as a.<name>
@@ -358,6 +361,12 @@ def call_expr(prog, nd, c, arg="x"):
     t = prog["nodes"][c["t"]]
     if c["form"] == "bare":
         return "%s(%s)" % (t["name"], arg)
+    if c["form"] == "mod_fl":  # the callee is reached through attributes of its own name: call modifiers
+        return "%s.force_local()(%s)" % (t["name"], arg)
+    if c["form"] == "mod_pt":
+        return "%s.partial(%s).call()" % (t["name"], arg)
+    if c["form"] == "mod_cb":
+        return "%s.call_batch([{\"x\": %s}])[0]" % (t["name"], arg)
     if c["form"] == "chain":  # the callee is named only inside the argument list of a call whose result is used through an attribute
         return "box(%s(%s)).plus(0).v" % (t["name"], arg)
     if c["form"] == "attr":
@@ -457,7 +466,7 @@ def from_imports(prog, mod):
             continue
         for c in all_calls(nd):
             t = prog["nodes"][c["t"]]
-            if t["mod"] != mod and c["form"] in ("bare", "chain"):
+            if t["mod"] != mod and c["form"] in ("bare", "chain", "mod_fl", "mod_pt", "mod_cb"):
                 names.setdefault(t["mod"], set()).add(t["name"])
         for rd in nd["reads"]:
             v = prog["vars"][rd["v"]]
@@ -482,7 +491,9 @@ def header(prog, mod, twin, skip=()):
         L.append("import %s as lib" % modname(prog, "e", twin))
     fi = from_imports(prog, mod)
     for src in ("a", "i", "e"):
-        names = fi.get(src, set()) - set(skip)
+        # (names cut out of the base file - `skip` - keep their place in the import statements: whether a name is bound
+        # by an import statement of the same compilation unit changes the bytecode of the functions that use it)
+        names = fi.get(src, set())
         if names:
             L.append("from %s import %s" % (modname(prog, src, twin), ", ".join(sorted(names))))
     return "\n".join(L) + "\n\n"
@@ -500,12 +511,16 @@ def render_module(prog, mod, twin=False, order=None, skip=()):
     for i in idx:
         nd = prog["nodes"][i]
         if nd["kind"] == "product" and nd.get("of") is not None and prog["nodes"][nd["of"]]["kind"] == "product":
+            if nd["name"] in skip:
+                parts.append("%s = None\n\n" % nd["name"])
             continue  # rendered with the factory of its leader
         if nd["name"] in skip:
             if nd["kind"] == "product":  # the factory stays (further products may survive); the leader's own binding goes
                 parts.append(render_factory(prog, i) + "".join(
                     "%s = mk_%s(%s)\n" % (o["name"], nd["name"], dlit(o["params"][1][1]))
                     for o in prog["nodes"] if o.get("of") == i and o["kind"] == "product" and o["name"] not in skip) + "\n")
+            # a placeholder keeps the name importable until the cell that defines it runs
+            parts.append("%s = None\n\n" % nd["name"])
             continue
         parts.append(render_def(prog, i, skip) + "\n")
     for al in prog["aliases"]:
